@@ -230,3 +230,24 @@ func CoqListNL(items []string) string {
 	}
 	return "[" + strings.Join(items, ";\n  ") + "]"
 }
+
+// ChunkedCases renders the case list of a cases.v file in chunks (a single
+// list literal with tens of thousands of elements overflows coqc's stack):
+// Definition <name>_k : list <typ> := [...]. and one mismatch list per chunk,
+// numbered globally through <from> (a function "N -> list typ -> list N").
+func ChunkedCases(name, typ, from string, items []string, chunk int) string {
+	var sb strings.Builder
+	if len(items) == 0 {
+		fmt.Fprintf(&sb, "Definition M%s := Eval vm_compute in %s 0%%N (@nil %s).\nPrint M%s.\n", name, from, typ, name)
+		return sb.String()
+	}
+	for k := 0; k*chunk < len(items); k++ {
+		lo, hi := k*chunk, (k+1)*chunk
+		if hi > len(items) {
+			hi = len(items)
+		}
+		fmt.Fprintf(&sb, "Definition %s_%d : list %s := \n%s.\n", name, k, typ, CoqListNL(items[lo:hi]))
+		fmt.Fprintf(&sb, "Definition M%s_%d := Eval vm_compute in %s %d%%N %s_%d.\nPrint M%s_%d.\n", name, k, from, lo, name, k, name, k)
+	}
+	return sb.String()
+}
